@@ -230,6 +230,10 @@ class Exec:
                 return v
             if bb.term.kind == 'goto':
                 fr['bb'] = bb.term.data['target']; continue
+            if bb.term.kind == 'call':
+                outs = self.call(st, fr, bb.term)
+                assert len(outs) == 1 and outs[0] is st, 'forking call in const body'
+                continue
             raise RuntimeError('const body too complex: ' + fn.name)
 
     def const(self, st, text, ty_hint=None):
